@@ -343,6 +343,18 @@ ParseCidr(k, c, infer, allowHost) ==
   /\ Log("ParseCidr", [k |-> k, rule |-> c.r, text |-> Str(c.cs), infer |-> infer, allowHost |-> allowHost],
          CidrView(k, p))
 
+\* The helpers are functions of their arguments: the answer to parse_cidr(text, infer, allow_host) is the same
+\* whatever was asked about the same text before.  (Only texts on which the two sets of flags disagree are
+\* worth the step.)
+ParseCidrAgain(k, c, infer0, allowHost0, infer, allowHost) ==
+  LET q == IF k = "v4" THEN ParseCidr4(c.cs, infer0, allowHost0) ELSE ParseCidr6(c.cs, allowHost0)
+      p == IF k = "v4" THEN ParseCidr4(c.cs, infer, allowHost) ELSE ParseCidr6(c.cs, allowHost) IN
+  /\ Pure
+  /\ p.k # "grey" /\ q.k # "grey" /\ CidrView(k, p) # CidrView(k, q)
+  /\ Log("ParseCidrAgain", [k |-> k, rule |-> c.r, text |-> Str(c.cs), infer |-> infer, allowHost |-> allowHost,
+                             infer0 |-> infer0, allowHost0 |-> allowHost0],
+         CidrView(k, p))
+
 CidrTexts(k) ==
   LET N == W(k) * NU(k)
       Bases == IF k = "v4" THEN Cidr4B ELSE Cidr6B
@@ -450,6 +462,8 @@ Next ==
   \/ MayMake /\ \E k \in NetKindsOn : \E b \in (-1)..(W(k) * NU(k) + 1) : CidrToMask(k, b)
   \/ MayMake /\ \E k \in NetKindsOn : \E f \in {"str", "obj"}, m \in MaskDomain(k) : MaskToCidrA(k, f, m)
   \/ MayMake /\ \E k \in NetKindsOn : \E c \in CidrOf(k), inf \in InferFlags(k), ah \in BOOLEAN : ParseCidr(k, c, inf, ah)
+  \/ MayMake /\ \E k \in NetKindsOn : \E c \in CidrOf(k), inf0 \in InferFlags(k), ah0 \in BOOLEAN, inf \in InferFlags(k), ah \in BOOLEAN :
+        ParseCidrAgain(k, c, inf0, ah0, inf, ah)
   \/ MayMake /\ \E d \in DpidsOn, f \in {"int", "raw"}, l \in BOOLEAN : DpidToStr(f, d, l)
   \/ MayMake /\ \E c \in DpidTexts : StrToDpid(c)
   \/ MayMake /\ \E d \in DpidsOn \cup DpidsRTOn, l \in BOOLEAN : DpidRound(d, l)
